@@ -1,9 +1,11 @@
 """C42 - buffered file wrappers preserve stream content and line structure.
 
 bfs: for every (stream, chunking, EOF style, bufsize, mode) configuration, breadth-first search over
-histories of read / readline / next / write / flush / close calls on a real BufferedFile subclass (and
-ChannelFile over a stub channel); every transition is compared with io.BytesIO (reads) and with the
-prefix / completeness / line-flush rules (writes).
+histories of read / readline / next / write / flush / close calls on a real BufferedFile subclass (a scripted
+one, ChannelFile over a stub channel, and every file class the library itself builds on a channel -
+Channel.makefile / makefile_stderr / makefile_stdin on a real Channel whose peer side is scripted); every
+transition is compared with io.BytesIO (reads) and with the prefix / completeness / line-flush rules (writes,
+observed at the peer for the real Channel).
 """
 import io
 
@@ -15,14 +17,20 @@ from paramiko.message import Message
 PID = "C42"
 META = {
     "level": "model_checking",
-    "technique": "explicit-state BFS over call histories on real BufferedFile / ChannelFile objects over a scripted "
-                 "stream (prefix replay), each transition compared with io.BytesIO and the write-delivery rules",
+    "technique": "explicit-state BFS over call histories on real BufferedFile / ChannelFile / ChannelStderrFile / "
+                 "ChannelStdinFile objects over a scripted stream (prefix replay), each transition compared with "
+                 "io.BytesIO and the write-delivery rules",
     "text": "Reads: every byte stream of length <=4 (quick) / <=5 (thorough) over {a, LF, CR} x every split into "
             "chunks x 3 EOF styles x bufsize {0,2,8192} / {0,1,2,3,8192} x modes rb/r/rU(/rbU) x every history of <=3 / <=4 calls "
             "out of read(1), read(2), read(), readline(), readline(1), readline(2), readline(3), next() (size limits "
             "falling before, at and after a newline inside already-buffered read-ahead). Writes: 4 partial-write "
             "policies x 5 bufsizes x binary/text x every history of <=3 / <=5 calls out of 4 writes, flush, close. "
-            "Mixed r+ histories of <=3 calls over both alphabets.",
+            "Mixed r+ histories of <=3 calls over both alphabets. File-class dimension: the same programs run on a "
+            "scripted BufferedFile subclass, on ChannelFile over a stub channel, and on the objects returned by "
+            "Channel.makefile / makefile_stderr / makefile_stdin of a real paramiko.Channel (reads: chunks arrive as "
+            "CHANNEL_DATA / EXTENDED_DATA, then EOF; writes: bufsize {-1,0,1,2,3,8192} x peer send window "
+            "{unlimited, 1, 2 bytes}; what reached the stream = the data messages the peer received, incl. close() "
+            "with pending buffered data).",
     "note": "universal-newline mode: exact comparison only for histories made of readline()/next() without size; "
             "otherwise only size limits and line shape are asserted (paramiko documents read() as untranslated). "
             "_write returning 0 is C25's subject and excluded.",
@@ -562,7 +570,11 @@ def main(tier):
         "distinct_nontrivial = distinct (stream, chunking, mode, read-ahead buffer, write buffer, call) where the "
         "call crossed a chunk boundary, left read-ahead, hit CR handling, buffered data or needed partial writes",
         ["the scripted stream never returns more than asked and never 0 bytes before EOF; EOF is sticky",
-         "ChannelFile runs over a stub channel (recv/sendall); Channel flow control is C19/C25's subject",
+         "ChannelFile also runs over a stub channel (recv/sendall); Channel flow control is C19/C25's subject",
+         "real-Channel configurations: single thread, the Transport is replaced by a recorder that parses the "
+         "messages the channel emits and re-opens the send window after every data message (partial sends "
+         "without blocking); incoming chunks are fed through Channel._feed/_feed_extended/_handle_eof when recv "
+         "finds its buffer empty; EOF/close messages are recorded, not judged",
          "universal-newline mode: exact only for unsized readline()/next() histories (see META.note)",
          "states merge on the listed fields; _pos/_realpos/newlines only feed tell()/.newlines, not compared"])
     rd = 3 if tier == "quick" else 4
@@ -576,6 +588,8 @@ def main(tier):
     items += [("mixed", 3, c) for c in enum.chunks(mc, max(16, len(mc) // 20))]
     ck.merge(core.pmap(items, run_chunk, init=core.unpin))
     ck.extra["bound"] = {"tier": tier, "read_configs": len(rc), "write_configs": len(wc), "mixed_configs": len(mc),
+                         "file_classes": ["BufferedFile (scripted subclass)", "ChannelFile (stub channel)"] + MAKEFILES,
+                         "real_channel_send_window_policies": CPOL,
                          "read_depth": rd, "write_depth": wr, "mixed_depth": 3,
                          "read_calls": [list(map(show, o)) for o in READ_OPS],
                          "write_calls": [list(map(show, o)) for o in WRITE_OPS]}
